@@ -70,10 +70,55 @@ class Endpoint(net.Endpoint):
     def _closed(self):
         return self.closed
 
+    recv_exc = None  # callable -> exception to raise from recv (None from the callable = EOF from now on)
+
     def send(self, data):
         if self.fail_send:
-            raise OSError(errno.EPIPE, "Broken pipe")
+            raise (self.fail_send() if callable(self.fail_send) else OSError(errno.EPIPE, "Broken pipe"))
         return super().send(data)
+
+    def recv(self, n):
+        f = self.recv_exc
+        if f is not None:
+            e = f()
+            if e is None:
+                return b""
+            raise e
+        return super().recv(n)
+
+
+class LinkDown(OSError):
+    """An application-defined socket error (socket-like objects may raise their own OSError subclasses)."""
+
+
+def shape_factory(shape):
+    """Shapes of the exception a socket-like object may raise when the connection is gone."""
+    if shape == "errno2":
+        return lambda: OSError(errno.ECONNRESET, "Connection reset by peer")
+    if shape == "one_arg":
+        return lambda: OSError("boom")
+    if shape == "no_args":
+        return lambda: OSError()
+    if shape == "reset_noargs":
+        return lambda: ConnectionResetError()
+    if shape == "custom_one_arg":
+        return lambda: LinkDown("link down")
+    if shape == "two_str":
+        return lambda: OSError("down", "really")
+    if shape == "timeout_errno":
+        # the kernel's ETIMEDOUT surfaces as TimeoutError (== socket.timeout); afterwards the socket reads EOF
+        state = {"n": 0}
+
+        def f():
+            state["n"] += 1
+            return TimeoutError(errno.ETIMEDOUT, "Connection timed out") if state["n"] == 1 else None
+
+        return f
+    raise ValueError(shape)
+
+
+SHAPES_RECV = ("errno2", "one_arg", "no_args", "reset_noargs", "custom_one_arg", "two_str", "timeout_errno")
+SHAPES_SEND = ("errno2", "one_arg", "no_args", "reset_noargs", "custom_one_arg", "two_str")
 
 
 class Stall:
@@ -538,7 +583,10 @@ class World:
                 time.sleep(0.01)
         elif loss == "local_close":
             self.V.close()
-        elif loss == "send_fails_first":
+        elif loss == "sock_raises" and var.startswith("recv:"):
+            vsock = self.link.a if self.role == "client" else self.link.b
+            vsock.recv_exc = shape_factory(var.split(":", 1)[1])
+        elif loss in ("send_fails_first", "sock_raises"):
             # the loss is first noticed by a *user thread's write*: V's send direction breaks while
             # inbound messages that need a reply, then FIN, are still queued for V's reader
             d, vsock = (self.link.ba, self.link.a) if self.role == "client" else (self.link.ab, self.link.b)
@@ -555,7 +603,7 @@ class World:
             m.add_string("keepalive@vf")
             m.add_boolean(True)
             self.P._send_message(m)
-            vsock.fail_send = True
+            vsock.fail_send = shape_factory(var.split(":", 1)[1]) if loss == "sock_raises" else True
             self.writer = {"outcome": None}
 
             def write():
@@ -1182,6 +1230,9 @@ def run_case(a):
                            pend=(w.link.ab.pending(), w.link.ba.pending())))
             w.teardown()
             return dict(res, status="done")
+        # "calls made afterwards": also after the transport thread itself is gone (bounded wait, not a verdict)
+        w.V.join(3.0)
+        res["v_thread_done_at_call"] = not w.V.is_alive()
         res["active_at_call"] = bool(w.V.is_active())
         callers = [Caller(w, i) for i in range(ncallers)]
         for c in callers:
